@@ -29,8 +29,15 @@ impl<'a, 'b> PwVisitor for V<'a, 'b> {
     type Out = Outcome;
     fn visit<T: Evaluate + Clone + std::fmt::Debug + 'static>(&mut self, pw: &Piecewise<T>, is_tag: bool) -> Outcome {
         let x = self.x;
+        // the oracle uses the ends of the function that was actually built (composed kinds)
+        let built_ends: Vec<f64> = pw.segments.iter().map(|s| s.end).collect();
+        let _ = self.ends;
+        let ends_ref: &[f64] = &built_ends;
+        if ends_ref.is_empty() || ends_ref.iter().any(|e| e.is_nan()) || ends_ref.windows(2).any(|w| !(w[0] <= w[1])) {
+            fail!("a library constructor returned a piecewise function whose breakpoints are not well-formed: {:?}", ends_ref);
+        }
         let got = lib!(pw.evaluate(x));
-        let i = select(self.ends, x);
+        let i = select(ends_ref, x);
         let want = lib!(pw.segments[i].poly.evaluate(x));
         self.ctx.comparisons += 1;
         if !same_bits(got, want) {
@@ -38,7 +45,7 @@ impl<'a, 'b> PwVisitor for V<'a, 'b> {
                 "Piecewise::evaluate({}) = {} but the first segment with end > x (else the last) is #{i} (ends {:?}) whose piece gives {}{}",
                 hex(x),
                 hex(got),
-                self.ends,
+                ends_ref,
                 hex(want),
                 if is_tag { format!(" — tag pieces: library used segment #{got}") } else { String::new() }
             );
@@ -56,7 +63,7 @@ impl Prop for C02 {
         "C02"
     }
     fn rule(&self) -> String {
-        "case = (segment list: sorted multiset of 1..=L ends drawn from a small lattice incl. adjacent floats, ±0, ±inf, duplicates; pieces are tag constants Poly0(i) or value pieces Poly1/Poly3/Log<Poly2>/IntOfLogPoly4; one non-NaN query from the list's alphabet: ends, ±1 ulp, midpoints, beyond both extremes, ±inf, ±MAX, ±0, random). Oracle: linear-scan selection model, result bits = selected piece evaluated directly. Non-trivial: >= 2 segments and x on an end, within one ulp of an end, or strictly inside the ends' range. Distinct by hash of (kind, ends, pool, x) bit patterns. Plus exhaustive scope: all sorted multisets of <= 4 ends over two 5-point lattices x full alphabet.".into()
+        "case = (segment list: sorted multiset of 1..=L ends drawn from a small lattice incl. adjacent floats, ±0, ±inf, duplicates; pieces are tag constants Poly0(i), value pieces Poly1/Poly3/Log<Poly2>/IntOfLogPoly4, or the function is COMPOSED from other library operations on those ends (output of linear(), of constrained_spline(), of Piecewise<Log<Poly4>>::integral(), of &f + &g - the oracle then uses the ends of the function actually built); 1 list in 10 is long (up to 100+ segments); one non-NaN query from the list's alphabet: ends, ±1 ulp, midpoints, beyond both extremes, ±inf, ±MAX, ±0, random). Oracle: linear-scan selection model, result bits = selected piece evaluated directly. Non-trivial: >= 2 segments and x on an end, within one ulp of an end, or strictly inside the ends' range. Distinct by hash of (kind, ends, pool, x) bit patterns. Plus exhaustive scope: all sorted multisets of <= 4 ends over two 5-point lattices x full alphabet.".into()
     }
     fn cases(&self, tier: Tier) -> u64 {
         tier.pick(1_500_000, 20_000_000)
@@ -83,7 +90,7 @@ impl Prop for C02 {
         }
         let cls = classify_query(&ends, x);
         ctx.label(cls);
-        ctx.label(KIND_NAMES[(c.pw.kind % 5) as usize]);
+        ctx.label(KIND_NAMES[(c.pw.kind % NKINDS) as usize]);
         if ends.len() == 1 {
             ctx.label("single-segment");
         }
@@ -158,7 +165,7 @@ pub fn fuzz_f64(u: &mut Unstructured) -> Option<f64> {
 
 pub fn pw_from_bytes(u: &mut Unstructured, max_len: usize) -> Option<PwSpec> {
     let kind: u8 = u.arbitrary().ok()?;
-    let kind = if kind < 160 { 0 } else { kind % 5 };
+    let kind = if kind < 160 { 0 } else { kind % NKINDS };
     let lat_kind: u8 = u.arbitrary().ok()?;
     let n = 1 + (u.arbitrary::<u8>().ok()? as usize) % max_len;
     // lattice: either one of the fixed ones or values decoded from the input
